@@ -118,15 +118,16 @@ def sampleFile : Ctx where
   paramFlags := []
   ext := []
 
-example : run sampleFile v_File_ValidateWith = .accept := by decide +kernel
-example : (exec v_File_IsADV sampleFile []).2 = .ret (.bool false) := by decide +kernel
-example : run { sampleFile with recv := "Batches[0]" } v_Batch_verify = .accept := by decide +kernel
+/-- non-vacuity: the kernel evaluates the translated `File.ValidateWith` on the sample file to `accept` -/
+theorem sample_file_accepted : run sampleFile v_File_ValidateWith = .accept := by decide +kernel
+theorem sample_file_not_adv : (exec v_File_IsADV sampleFile []).2 = .ret (.bool false) := by decide +kernel
+theorem sample_batch_verified : run { sampleFile with recv := "Batches[0]" } v_Batch_verify = .accept := by decide +kernel
 
 
 
 
 /-- the hypotheses of `accepted_file_batches_verified` hold of the sample file together: the theorem applies -/
-example : run { sampleFile with recv := "Batches[0]" } v_Batch_verify = .accept :=
+theorem sample_meets_hypotheses : run { sampleFile with recv := "Batches[0]" } v_Batch_verify = .accept :=
   Ach.Props.AcceptedFileBatches.accepted_file_batches_verified sampleFile "Batches" 1 (by decide +kernel) (by decide +kernel)
     (by decide +kernel) (by decide +kernel) 0 (by omega) "BatchCCD" (by decide +kernel) (by decide)
 
